@@ -94,6 +94,7 @@ CHECKS = {
         assumptions=["fake broker applies a produce request atomically and answers in request order", "an acknowledgement counts as delivered when the response frame was written completely to a connection the client had not closed"],
         units=[
             dict(run="TestWriterFaults", checks_quick=350, checks_thorough=1500, shards_quick=4, shards_thorough=16, timeout=1500),
+            dict(run="TestHugeCall", checks=None, timeout=600),
         ],
     ),
     "C16": dict(
